@@ -664,7 +664,10 @@ dt_strpdt(const char *str, const char *fmt, char **ep)
 		/* we demand a float representation from start to finish */
 		res.d.jdn = (dt_jdn_t)strtod(str, &on);
 
-		if (UNLIKELY(*on < '\0' || *on > ' ')) {
+		if (UNLIKELY(on == str)) {
+			/* no number there at all */
+			goto fucked;
+		} else if (UNLIKELY(*on < '\0' || *on > ' ')) {
 			/* nah, that's not a distinguished float */
 			goto fucked;
 		}
@@ -676,7 +679,10 @@ dt_strpdt(const char *str, const char *fmt, char **ep)
 
 	case DT_LDN:
 		res.d.ldn = (dt_ldn_t)strtoi32(str, &sp);
-		if (*sp == '.') {
+		if (UNLIKELY(sp == str)) {
+			/* no number there at all */
+			goto fucked;
+		} else if (*sp == '.') {
 			/* oooh, a double it seems */
 			double tmp = strtod(sp, &on);
 
@@ -702,7 +708,10 @@ dt_strpdt(const char *str, const char *fmt, char **ep)
 
 	case DT_MDN:
 		res.d.mdn = (dt_ldn_t)strtoi32(str, &sp);
-		if (*sp == '.') {
+		if (UNLIKELY(sp == str)) {
+			/* no number there at all */
+			goto fucked;
+		} else if (*sp == '.') {
 			/* oooh, a double it seems */
 			double tmp = strtod(sp, &on);
 
